@@ -14,11 +14,11 @@ RULE = (
     "non-trivial = the reference circulation vector is non-zero and distinct (state, outcome digest)"
 )
 ASSUMPTIONS = [
-    "finite alphabets for the real-valued inputs (see axes, both signs of alpha and beta); shapes nx<=4, ny<=7, <=3 surfaces (identical and mixed shapes); C-wing tips folded to 120 deg, surfaces stored from +y to -y, surfaces at incidence",
+    "finite alphabets for the real-valued inputs (see axes, both signs of alpha and beta); shapes nx<=4, ny<=7, <=3 surfaces (identical and mixed shapes) exhaustively, six production-size lattices (nx<=10, ny<=41) in addition; C-wing tips folded to 120 deg, surfaces stored from +y to -y, surfaces at incidence",
     "reference solver oasmc/ref/ref_vlm.py (self-tested against Biot-Savart quadrature) is correct",
     "OpenMDAO, NumPy, SciPy trusted",
 ]
-BOUND = {"quick": "<=3 surfaces, nx<=3 (+ one planform with nx=4), half ny<=3 / full ny<=5", "thorough": "<=3 surfaces, nx<=4, half ny<=4 / full ny<=7"}
+BOUND = {"quick": "<=3 surfaces, nx<=3 (+ one planform with nx=4), half ny<=3 / full ny<=5; plus six production-size lattice sets (nx<=10, ny<=41, <=128 panels per surface, 1-3 surfaces) at one generic flow each", "thorough": "<=3 surfaces, nx<=4, half ny<=4 / full ny<=7; plus the six production-size lattice sets under the complete flow product"}
 TOL = 1e-9
 
 OMEGA_FULL = [0.1, -0.2, 0.3]
@@ -79,6 +79,19 @@ def surf_sets(tier):
     return out
 
 
+def big_sets():
+    """production-size lattices (index arithmetic and block offsets beyond the small shapes): up to 128 panels on one
+    surface, nx up to 10, ny up to 41, two and three surfaces with every chordwise count different"""
+    return [
+        [dict(pf="crm", nx=9, ny=17, side="full", off=None)],
+        [dict(pf="swept", nx=7, ny=12, side="left", off=None)],
+        [dict(pf="camber", nx=10, ny=3, side="left", off=None)],
+        [dict(pf="twdi", nx=2, ny=41, side="full", off=None)],
+        [dict(pf="twdi", nx=6, ny=11, side="right", off=None), dict(pf="rect", nx=5, ny=9, side="fullsym", off=[5.0, 0.0, 0.7], span=3.0, chord=0.8)],
+        [dict(pf="swept", nx=5, ny=9, side="full", off=None), dict(pf="rect", nx=4, ny=7, side="full", off=[5.0, 0.3, 0.7], span=3.0, chord=0.8), dict(pf="camber", nx=6, ny=9, side="full", off=[-3.0, -0.2, -0.5], span=5.0, chord=1.0)],
+    ]
+
+
 def states(tier, seed):
     fam = seed % 3
     alphas = [0.0, 5.0, -3.0] if tier == "quick" else [0.0, 5.0, -3.0, 15.0, -15.0]
@@ -92,6 +105,16 @@ def states(tier, seed):
             if anysym and beta != 0.0:
                 inadm += 1
                 continue
+            st.append(dict(surfs=ss, alpha=alpha, beta=beta, rot=rot, v=v, rho=rho, fam=fam))
+    # production-size lattices: quick = one generic flow per set (with and without rotation, sideslip where admissible),
+    # thorough = the complete flow product as above
+    for ss in big_sets():
+        anysym = any(s["side"] in ("left", "right") for s in ss)
+        if tier == "quick":
+            flows = [(5.0, 0.0 if anysym else 4.0, rot, 248.0, 0.38) for rot in (False, True)]
+        else:
+            flows = [(a, b, r, v, rho) for a, b, r, (v, rho) in itertools.product(alphas, betas, [False, True], vr) if not (anysym and b != 0.0)]
+        for alpha, beta, rot, v, rho in flows:
             st.append(dict(surfs=ss, alpha=alpha, beta=beta, rot=rot, v=v, rho=rho, fam=fam))
     return st, inadm
 
